@@ -136,8 +136,6 @@ impl Pos {
     { unimplemented!() }
     #[verifier::external_body]
     pub fn on_increased(&mut self) -> (r: Result<(), E>) ensures *final(self) == *old(self) { unimplemented!() }
-    #[verifier::external_body]
-    pub fn validate(&self, prices: &Prices, a: bool, b: bool) -> (r: Result<(), E>) { unimplemented!() }
 
 //@unit C07.PositionMutExt.update_open_interest
 //@ file crates/model/src/position.rs
